@@ -62,10 +62,12 @@ pub static mut VH_TCUR: [usize; T] = [0; T];
 pub static mut VH_TID: usize = 0;
 /// index of the running operation within its thread
 pub static mut VH_TOP: u8 = 0;
-/// cells in first-touched order
-pub static mut VH_TCELL0: *mut usize = core::ptr::null_mut();
-pub static mut VH_TCELL1: *mut usize = core::ptr::null_mut();
-pub static mut VH_TCELL2: *mut usize = core::ptr::null_mut();
+/// the iterator object of the running thread and the cell offsets seen so far
+pub static mut VH_TOBJ: *const u8 = core::ptr::null();
+pub static mut VH_TOFF0: usize = 0;
+pub static mut VH_TOFF1: usize = 0;
+pub static mut VH_TOFF2: usize = 0;
+pub static mut VH_TOFF_N: usize = 0;
 /// length of the wrapped probe
 pub static mut VH_TLEN: usize = 0;
 /// final memory of the trace, then the memory of the solo phase
@@ -280,9 +282,7 @@ pub fn guess_and_validate(len: usize, hb: bool) {
         VH_TSOLO_LOADS = 0;
         VH_TSOLO_EVENTS = 0;
         VH_THANG = false;
-        VH_TCELL0 = core::ptr::null_mut();
-        VH_TCELL1 = core::ptr::null_mut();
-        VH_TCELL2 = core::ptr::null_mut();
+        VH_TOFF_N = 0;
         crate::hook::VH_TRACE_MODE = true;
     }
 }
@@ -298,8 +298,10 @@ const fn total_bound() -> usize {
     T * M
 }
 
-pub fn start_thread(t: usize, solo_allowed: bool) {
+pub fn start_thread<X>(t: usize, solo_allowed: bool, obj: &X) {
     unsafe {
+        VH_TOBJ = obj as *const X as *const u8;
+        VH_TCUR[t] = 0;
         VH_TID = t;
         VH_TOP = 0;
         VH_TSOLO_ALLOWED = solo_allowed;
@@ -394,23 +396,28 @@ unsafe fn solo_access(loc: usize, kind: u32, operand: usize) -> usize {
     before
 }
 
-/// Location name of a cell: cells are numbered in the order in which the running code first touches
-/// them (scalar statics only; the guessed trace has to use the same names).
+/// Location name of a cell: its byte offset inside the iterator object the running thread operates on
+/// (every thread runs on its own object of identical layout: in trace mode no state is shared through
+/// the objects, everything shared lives in the trace). Offsets are numbered in first-seen order.
 unsafe fn loc_name(cell: *mut usize) -> u8 {
-    if VH_TCELL0 == cell {
+    let off = (cell as *const u8).offset_from(VH_TOBJ) as usize;
+    if VH_TOFF_N > 0 && VH_TOFF0 == off {
         0
-    } else if VH_TCELL1 == cell {
+    } else if VH_TOFF_N > 1 && VH_TOFF1 == off {
         1
-    } else if VH_TCELL2 == cell {
+    } else if VH_TOFF_N > 2 && VH_TOFF2 == off {
         2
-    } else if VH_TCELL0.is_null() {
-        VH_TCELL0 = cell;
+    } else if VH_TOFF_N == 0 {
+        VH_TOFF0 = off;
+        VH_TOFF_N = 1;
         0
-    } else if VH_TCELL1.is_null() {
-        VH_TCELL1 = cell;
+    } else if VH_TOFF_N == 1 {
+        VH_TOFF1 = off;
+        VH_TOFF_N = 2;
         1
-    } else if VH_TCELL2.is_null() {
-        VH_TCELL2 = cell;
+    } else if VH_TOFF_N == 2 {
+        VH_TOFF2 = off;
+        VH_TOFF_N = 3;
         2
     } else {
         kani::assume(false);
@@ -484,32 +491,41 @@ pub fn finish() {
     }
 }
 
-/// Probe whose position lives in the trace (location ITER).
-#[derive(Debug)]
-pub struct TProbe {
-    pub len: usize,
-    pub hint: u8,
-}
-
-impl Iterator for TProbe {
-    type Item = usize;
-    fn next(&mut self) -> Option<usize> {
-        let p = iter_access();
-        if p < self.len {
-            Some(p)
-        } else {
-            None
+/// Probes whose position lives in the trace (location ITER). Three identical types: every run of a
+/// thread's operations uses its own monomorphisation of the crate code, so that the checks *inside* the
+/// crate can be attributed: `TProbeA` = first thread, first pass (runs against a guess the other thread has
+/// not accepted yet: its in-crate checks are not believed), `TProbeB` = last thread, `TProbeC` = first
+/// thread again after the whole trace has been accepted (both exact).
+macro_rules! tprobe {
+    ($name:ident) => {
+        #[derive(Debug)]
+        pub struct $name {
+            pub len: usize,
+            pub hint: u8,
         }
-    }
-    fn size_hint(&self) -> (usize, Option<usize>) {
-        match self.hint {
-            0 => (self.len, Some(self.len)),
-            1 => (0, Some(self.len)),
-            _ => (0, None),
+        impl Iterator for $name {
+            type Item = usize;
+            fn next(&mut self) -> Option<usize> {
+                let p = iter_access();
+                if p < self.len {
+                    Some(p)
+                } else {
+                    None
+                }
+            }
+            fn size_hint(&self) -> (usize, Option<usize>) {
+                match self.hint {
+                    0 => (self.len, Some(self.len)),
+                    1 => (0, Some(self.len)),
+                    _ => (0, None),
+                }
+            }
         }
-    }
+    };
 }
-
+tprobe!(TProbeA);
+tprobe!(TProbeB);
+tprobe!(TProbeC);
 
 /// C07, read off the validated trace (the clocks were constrained during validation from the memory
 /// orderings the real call sites used; C11 rules: a release store heads a release sequence, RMWs continue
